@@ -189,3 +189,24 @@ MUTANTS["C12"] = [
     ("loader masks note.module to 8 bits for current files too",
      [("rv/readers/sunvox.py", "        if self.object.loaded_sunvox_version < (1, 9, 5, 0):", "        if self.object.loaded_sunvox_version < (2, 9, 5, 0):")]),
 ]
+
+MUTANTS["C05"] = [
+    ("revert fix F2 (out-of-range CVAL drift)", [("revert", "bddc651")]),
+    ("Synth.chunks truncates the module name in place while saving",
+     [("rv/synth.py", "        mod = self.module\n        yield from mod.iff_chunks(in_project=False)", "        mod = self.module\n        if len(mod.name) > 28:\n            mod.name = mod.name[:28]\n        yield from mod.iff_chunks(in_project=False)")]),
+    ("SLnK reader stops stripping trailing -1",
+     [("rv/readers/module.py", "        slots.extend(unpack(structure, data))\n        while slots[-1:] == [-1]:\n            slots.pop()", "        slots.extend(unpack(structure, data))")]),
+    ("writer normalises module scale 0 to 256 on save",
+     [("rv/modules/module.py", "        yield b\"SSCL\", pack(\"<I\", self.scale)", "        if self.scale == 0:\n            self.scale = 256\n        yield b\"SSCL\", pack(\"<I\", self.scale)")]),
+    ("write_chunk caches the header of the previous chunk by name (stale size when two writers interleave)",
+     [("rv/lib/iff.py", "    size = len(data)\n    f.write(name)\n    f.write(struct.pack(\"<I\", size))\n    f.write(data)",
+       "    size = len(data)\n    if _last[0] == name and _last[2] is not f:\n        hdr = _last[1]\n    else:\n        hdr = name + struct.pack(\"<I\", size)\n    _last[:] = [name, hdr, f]\n    f.write(hdr)\n    f.write(data)"),
+      ("rv/lib/iff.py", "def write_chunk(f, name, data):", "_last = [None, None, None]\n\n\ndef write_chunk(f, name, data):")]),
+    ("an aborted save leaves the Sampler marked as legacy",
+     [("rv/modules/sampler.py", "        for iter in iters:\n            yield from iter", "        self.is_legacy, self.legacy_chunks = True, []\n        for iter in iters:\n            yield from iter\n        self.is_legacy, self.legacy_chunks = False, None")]),
+    ("pattern writer clamps velocity above 128 while saving",
+     [("rv/pattern.py", "        yield b\"PDTA\", self.raw_data", "        for line in self.data:\n            for note in line:\n                if note.vel > 129:\n                    note.vel = 129\n        yield b\"PDTA\", self.raw_data")]),
+]
+
+MUTANTS["C01"].append(("MetaModule caches the embedded project bytes after the first save",
+     [("rv/modules/metamodule.py", "        yield b\"CHDT\", self.project.read()", "        if getattr(self, \"_cached\", None) is None:\n            self._cached = self.project.read()\n        yield b\"CHDT\", self._cached")]))
